@@ -56,7 +56,9 @@ def gen_cases(tier, seed):
     k = 4 if tier == "thorough" else 3
     for first in range(len(SUBSET)):
         yield {"kind": "reduce", "first": first, "k": k}
-    yield {"kind": "reduce4", "tier": tier}
+    for first in range(6):
+        for second in range(6):
+            yield {"kind": "reduce4", "tier": tier, "first": first, "second": second}
     for si in range(len(SIGNS)):
         for ii in range(len(INTS)):
             yield {"kind": "parse", "sign": si, "int": ii}
@@ -225,9 +227,9 @@ def check_reductions(res, case, arr_vals, shape, sub, layout="C"):
                                       f"[{s2}]", case, s2)
                         break
         # --- the NumPy function forms (np.ptp(P) is the only spelling NumPy 2 offers for arrays) agree with the methods
-        for name in ("min", "max", "argmin", "argmax", "ptp", "sort", "argsort"):
-            if name in ("sort", "argsort") and axis is None and False:
-                continue
+        import zlib as _z
+        np_forms = len(arr_vals) <= 2 or len(shape) > 1 or _z.crc32(repr(arr_vals).encode()) % 3 == 0      # (a third of the longer 1-d arrays)
+        for name in (("min", "max", "argmin", "argmax", "ptp", "sort", "argsort") if np_forms else ()):
             try:
                 kw_ = {"axis": axis} if (axis is not None or name in ("sort", "argsort")) else {}
                 via_np = getattr(np, name)(P, **kw_)
@@ -341,6 +343,8 @@ def reduce4_case(case, res):
     """length-4 arrays and their 2x2 reshapes over the six hardest values (all 6^4), quick and thorough."""
     hard = [SUBSET[i] for i in (1, 2, 3, 4, 8, 9)]
     for combo in itertools.product(range(len(hard)), repeat=4):
+        if combo[0] != case.get("first", combo[0]) or combo[1] != case.get("second", combo[1]):
+            continue
         vals = [hard[i] for i in combo]
         res.state(("red4", combo))
         check_reductions(res, case, vals, (4,), {"values": [list(v) for v in vals]})
